@@ -63,7 +63,8 @@ def premise_text(p):
 
 
 def rule_text(r):
-    return "%s :- %s." % (atom_text(r["head"][0], r["head"][1]), ", ".join(premise_text(p) for p in r["body"]))
+    # a space before the final period: the lexer reads "/a/b." as one name
+    return "%s :- %s ." % (atom_text(r["head"][0], r["head"][1]), ", ".join(premise_text(p) for p in r["body"]))
 
 
 def fact_text(f):
@@ -131,7 +132,8 @@ def cq_case(prog, go_accepts, go_sound):
     for d in prog["decls"].values():
         if d.get("descr"):
             raise Outside("descr")
-    D = T.cq_list("(%d, %s)" % (pnum(p), T.cq_list(T.cq_list(T.cq_ty(t) for t in row) for row in d["rows"]))
+    D = T.cq_list("(%d, %s)" % (pnum(p), T.cq_list(T.cq_list(T.cq_ty(t) for t in row)
+                                                    for row in (d["rows"] or [[T.ANY] * d["arity"]])))
                   for p, d in prog["decls"].items())
     R = T.cq_list("(cl (at_ %d %s) %s)" % (pnum(r["head"][0]), T.cq_list(cq_term(a) for a in r["head"][1]),
                                             T.cq_list(cq_premise(p) for p in r["body"])) for r in prog["rules"])
@@ -170,6 +172,20 @@ def frag_const_ok(c):
     return False
 
 
+def positive(c):
+    """the same constant with non-negative numbers ("[-2]" does not lex)"""
+    k = c[0]
+    if k == "num":
+        return T.cnum(abs(c[1]))
+    if k == "pair":
+        return T.cpair(positive(c[1]), positive(c[2]))
+    if k == "list":
+        return T.clist([positive(e) for e in c[1]])
+    if k in ("map", "struct"):
+        return [k, [[positive(a), positive(b)] for a, b in c[1]]]
+    return c
+
+
 def text_ok(c):
     """constants whose surface syntax the parser reads back as the same constant"""
     k = c[0]
@@ -197,18 +213,22 @@ class Gen:
             return gen_frag_type(rng, rng.choice([0, 1, 1, 2]))
         return T.gen_type(rng, rng.choice([1, 1, 2]), self.env)
 
-    def member(self, t):
+    def member(self, t, mix=0.35):
         rng = self.rng
         for _ in range(4):
-            if self.pool and rng.random() < 0.35:
+            if self.pool and rng.random() < mix:
                 c = rng.choice(self.pool)
             else:
                 c = T.gen_member(rng, t)
+            if c is not None:
+                c = positive(c)
+            if c is not None and mix == 0.0 and "pair" in json.dumps(c):
+                continue        # a pair constant in the text gets the bound /any
             if c is not None and text_ok(c) and (self.wide or frag_const_ok(c)):
                 if len(self.pool) < 60:
                     self.pool.append(c)
                 return c
-        return T.cnum(rng.choice([0, 1, 7]))
+        return None if mix == 0.0 else T.cnum(rng.choice([0, 1, 7]))
 
     def near(self, t):
         """a type related to t: itself, something above it, something below or beside it"""
@@ -246,17 +266,22 @@ def gen_program(rng, wide):
             rows = []           # Decl p(X). without bounds
         decls["p%d" % i] = {"arity": ar, "rows": rows}
     preds = list(decls)
-    # candidate facts of the extensional predicates
+    # candidate facts of the extensional predicates. Facts for the caller's store are
+    # candidates (the harness keeps the conforming ones); facts in the text are aimed at
+    # their row, except in "dirty" programs, which the checker has to reject or get right.
+    dirty = rng.random() < 0.2
     for p in preds[:nedb]:
         d = decls[p]
         rows = d["rows"] or [[T.ANY] * d["arity"]]
         for row in rows:
-            for _ in range(rng.choice([1, 2, 3])):
-                f = [p, [g.member(t) for t in row]]
-                (init if rng.random() < 0.35 else pre).append(f)
-        if rng.random() < 0.25:   # a candidate built from the shared pool only: often not conforming
-            f = [p, [g.member(T.ANY) for _ in range(d["arity"])]]
-            (init if rng.random() < 0.5 else pre).append(f)
+            for _ in range(rng.choice([2, 3, 4])):
+                if rng.random() < 0.25 and (dirty or not any("sing" in json.dumps(t) for t in row)):
+                    init.append([p, [g.member(t, 0.3 if dirty else 0.0) for t in row]])
+                else:
+                    pre.append([p, [g.member(t) for t in row]])
+        if rng.random() < 0.3:   # a candidate built from the shared pool only: often not conforming
+            f = [p, [g.member(T.ANY, 0.9) for _ in range(d["arity"])]]
+            (init if dirty and rng.random() < 0.5 else pre).append(f)
     # intensional predicates, each defined from the predicates before it
     for j in range(nidb):
         name = "p%d" % (nedb + j)
@@ -288,8 +313,11 @@ def gen_program(rng, wide):
             rows.append(row)
         decls[name] = {"arity": ar, "rows": rows}
         rules += prules
-        if rng.random() < 0.2:      # a declared intensional predicate with facts in the text as well
-            init.append([name, [g.member(t) for t in rows[0]]])
+        if rng.random() < 0.15 and (dirty or not any("sing" in json.dumps(t) for t in rows[0])):
+            # a declared intensional predicate with facts in the text as well
+            init.append([name, [g.member(t, 0.3 if dirty else 0.0) for t in rows[0]]])
+    init = [f for f in init if all(c is not None for c in f[1])]
+    pre = [f for f in pre if all(c is not None for c in f[1])]
     return {"decls": decls, "rules": rules, "init": init, "pre": pre, "wide": wide}
 
 
@@ -312,11 +340,14 @@ def gen_rule(rng, g, decls, head, ar, wide):
         args = []
         for i in range(d["arity"]):
             r = rng.random()
-            if vt and r < 0.35:
-                v = rng.choice(list(vt))
-                args.append(["var", v])
-            elif r < 0.45:
-                args.append(["c", g.member(rows[0][i])])
+            col = [row[i] for row in rows]
+            compat = [v for v in vt if all(any(a == b or b == T.ANY for b in col) for a in vt[v])]
+            if compat and r < 0.40:
+                args.append(["var", rng.choice(compat)])
+            elif vt and r < 0.44:
+                args.append(["var", rng.choice(list(vt))])        # a join that may be ill-typed
+            elif r < 0.50:
+                args.append(["c", g.member(rows[0][i], 0.1)])
             else:
                 v = fresh()
                 vt[v] = [row[i] for row in rows]
@@ -341,7 +372,7 @@ def gen_rule(rng, g, decls, head, ar, wide):
                 if len(vt[w][0][1][1]) == 1:
                     vt[w] = [T.tlist(vt[w][0][1][1][0])]
             elif k < 0.75:
-                c = g.member(rng.choice(vt[v]))
+                c = g.member(rng.choice(vt[v]), 0.1)
                 body.append(["eq", ["var", w], ["c", c]] if rng.random() < 0.7 else ["eq", ["c", c], ["var", w]])
                 vt[w] = [T.ANY]
             else:
@@ -349,7 +380,7 @@ def gen_rule(rng, g, decls, head, ar, wide):
                 vt[w] = list(vt[v])
             bound.append(w)
         elif r < 0.36:
-            c = g.member(rng.choice(vt[v]))
+            c = g.member(rng.choice(vt[v]), 0.1)
             body.append(["eq", ["var", v], ["c", c]])
         elif r < 0.50:
             other = ["var", rng.choice(bound)] if rng.random() < 0.4 else ["c", g.member(rng.choice(vt[v] + [T.NUMBER]))]
